@@ -29,6 +29,7 @@ import ast
 import os
 
 from .. import translate
+from . import normalize
 
 REL = "fairlearn/metrics/_disaggregated_result.py"
 
@@ -362,7 +363,7 @@ def check_sig(fn, what, names):
 
 def parse_methods(repo):
     src = open(os.path.join(repo, REL)).read()
-    tree = ast.parse(src)
+    tree = normalize.parse(src)
     cls = next((n for n in tree.body if isinstance(n, ast.ClassDef) and n.name == "DisaggregatedResult"), None)
     if cls is None:
         raise U("class DisaggregatedResult not found")
